@@ -24,7 +24,8 @@ EXPLANATION = (
     "restarts at 0 in every block; (e) empty flow -- source/fill_request/sequence invocations of the final pass are "
     "guarded by flow_was_empty, which is cleared only for a non-empty block; (f) an empty Split installs the "
     "identity _empty_run; (g) Zip._yield pulls every branch once per round in list order and a StopIteration "
-    "leaves the loop without yielding the partial tuple.  Does not decide the concrete output order/values nor "
+    "leaves the loop without yielding the partial tuple; every sequence class the classifier knows has its own isinstance test and no "
+    "duck-typing test is reached before all of them have failed.  Does not decide the concrete output order/values nor "
     "bufsize-independence of results.")
 RULES = {
     "C03-a": "AGREE: classifier kinds = kinds dispatched in the block loop = kinds of the final pass; common-type tables within the kinds",
